@@ -10,8 +10,13 @@ Conformance     for every universe element (base image of gen/mkbase.py x corrup
                 with the independent reader, and let TLC (spec/Trace_Tools.tla, action TFsckN) evaluate
                 FailedConjuncts(st0) and C02_Holds on the logged line.  No verdict is computed in python.
 Universe        base images x catalogue (singles, pairs, closed triples) + Corrupt.tla!C02Closed (relocated bitmap pointers, resize-inode
-                map) + the tool-built images of gen/c02_extras.py.  thorough runs ALL of it; quick = a seeded subset of the singles and
-                pairs + every closed triple / C02Closed element / extra image (so no seed can select an element thorough has not run).
+                map) + Corrupt.tla!C02Bounds (the high halves that exist only with 64bit descriptors / in the inode body, and the exact
+                boundary values of every block-number, inode-number and per-group-count range test) + the tool-built images of
+                gen/c02_extras.py, as built AND under the superblock recipes of Corrupt.tla!ExtraHashRecipes / ExtraSbRecipes (every bit of
+                s_flags, every s_def_hash_version, the Superblock table; checksum recomputed; the reader judges the htree with the hash the
+                corrupted superblock prescribes).  thorough runs ALL of it; quick = a seeded subset of the singles and pairs + every closed
+                triple / C02Closed / C02Bounds element / extra image / hash selector on an extra image (so no seed can select an element
+                thorough has not run).
 Reader limits   a state the reader cannot produce (exception, timeout, integer beyond TLC's range, certificate rejected by
                 CertOK) is `unknown`: counted in the evidence, never a violation.
 """
@@ -33,6 +38,8 @@ QUICK_PAIRS = int(os.environ.get("C02_QUICK_PAIRS", "24"))
 # thorough: every bindable element of the universe is run (singles with recomputed and with stale checksum, pairs, triples);
 # the state of FLAGGED stale-checksum singles is projected (evidence only) inside a 1-in-STALE_EVERY subsample
 STALE_EVERY = 6
+OWNER_EVERY = 8             # quick: uid_hi / gid_hi recipes of C02Bounds outside the quota profile, one in OWNER_EVERY
+QUICK_XSB = int(os.environ.get("C02_QUICK_XSB", "36"))     # quick: sampled (extra image, Superblock recipe) elements besides the mandatory hash selectors
 # thorough: recipes that e2fsck flags hold trivially; their state is projected (for the evidence: how many of the
 # inconsistent states e2fsck flags, reader/e2fsck agreement) for one in FLAGGED_EVERY
 FLAGGED_EVERY = 8
@@ -63,14 +70,16 @@ def load_own_findings(vd, pid=PID):
 _G = {}
 
 
-def _init(bdir, basedir, work):
-    _G.update(b=bdir, basedir=basedir, work=work, bases={}, env=tool_env(bdir), fsck=os.path.join(bdir, "e2fsck", "e2fsck"))
+def _init(bdir, basedir, work, xpaths=None):
+    _G.update(b=bdir, basedir=basedir, work=work, bases={}, env=tool_env(bdir), fsck=os.path.join(bdir, "e2fsck", "e2fsck"),
+              xpaths=xpaths or {})
 
 
 def _base(profile):
+    """a base image of gen/mkbase.py, or ("extra:<name>") one of C02's own tool-built images: recipes bind on both"""
     B = _G["bases"].get(profile)
     if B is None:
-        B = corrupt.Base(os.path.join(_G["basedir"], profile + ".img"))
+        B = corrupt.Base(_G["xpaths"][profile] if profile in _G["xpaths"] else os.path.join(_G["basedir"], profile + ".img"))
         _G["bases"][profile] = B
     return B
 
@@ -263,8 +272,9 @@ def select(tier, U, profiles, pool, rng, quick_n=None, quick_pairs=None, all_sta
     quick_pairs = QUICK_PAIRS if quick_pairs is None else quick_pairs
     singles = [[r] for r in U["catalogue"]]
     rel = corrupt.relocs(U) if with_relocs else []                   # C02 only: bitmap pointers relocated onto fixed metadata (Corrupt.tla!Relocs)
-    prs = corrupt.pairs(U["pairseeds"]) + corrupt.triples(U) + rel   # multi-field corruptions: all pairs of the seeds + the closed triples (+ relocs)
-    ntr = len(corrupt.triples(U)) + len(rel)                         # the closed multi-field corruptions: run by every tier, for every seed
+    bnd = corrupt.bounds(U) if with_relocs else []                   # C02 only: high halves and exact range boundaries (Corrupt.tla!C02Bounds)
+    prs = corrupt.pairs(U["pairseeds"]) + corrupt.triples(U) + rel + bnd   # multi-field corruptions: all pairs of the seeds + the closed sets
+    ntr = len(corrupt.triples(U)) + len(rel) + len(bnd)              # the closed sets: run by every tier, for every seed
     cases = []
     # which recipes bind on which profile (cheap: no image is written)
     bindmap = {}
@@ -272,9 +282,11 @@ def select(tier, U, profiles, pool, rng, quick_n=None, quick_pairs=None, all_sta
     for p, ks in zip(profiles, pool.map(_bindable, todo)):
         bindmap[p] = set(ks)
     ns = len(singles)
-    stats = {"catalogue": len(singles), "pairs": len(prs) - ntr, "triples": ntr - len(rel), "relocs": len(rel),
+    nb0 = len(singles + prs) - len(bnd)
+    stats = {"catalogue": len(singles), "pairs": len(prs) - ntr, "triples": ntr - len(rel) - len(bnd), "relocs": len(rel), "bounds": len(bnd),
              "bindable_singles": sum(1 for p in profiles for k in bindmap[p] if k < ns),
-             "bindable_pairs": sum(1 for p in profiles for k in bindmap[p] if k >= ns)}
+             "bindable_pairs": sum(1 for p in profiles for k in bindmap[p] if ns <= k < nb0),
+             "bindable_bounds": sum(1 for p in profiles for k in bindmap[p] if k >= nb0)}
     only = os.environ.get("VERIF_ONLY")          # development / triage: restrict the universe to recipes matching a regex
     if only:
         allr = singles + prs
@@ -294,8 +306,14 @@ def select(tier, U, profiles, pool, rng, quick_n=None, quick_pairs=None, all_sta
         pick += rng.sample(rest, min(len(rest), nfix)) + rng.sample(cand_stale, min(len(cand_stale), quick_n // 6)) + \
             rng.sample(cand_pair, min(len(cand_pair), quick_pairs))
         picked = set(pick)
-        pick += [(p, k) for p in profiles for k in sorted(bindmap[p]) if k >= len(singles + prs) - ntr and (p, k) not in picked]    # the closed triples always
-        nrel0 = len(singles + prs) - len(rel)
+        # the closed sets always, for every seed.  Thinned in the quick tier: the ownership fields (uid / gid high halves) take part in
+        # no listed invariant except through the quota files -> every one of them on the quota profiles, one in OWNER_EVERY elsewhere
+        allr_ = singles + prs
+        def thin(p, k):
+            if k < nb0 or allr_[k][0]["field"] not in ("uid_hi", "gid_hi") or p == "quota": return False
+            return rng.randrange(OWNER_EVERY) != 0
+        pick += [(p, k) for p in profiles for k in sorted(bindmap[p]) if k >= len(singles + prs) - ntr and (p, k) not in picked and not thin(p, k)]
+        nrel0 = len(singles + prs) - len(rel) - len(bnd)
         for p, k in pick:
             # the state of every selected element is projected, except for the relocs: e2fsck flags all of them on the unchanged
             # tree (the property holds trivially); their state is projected when e2fsck exits 0
@@ -339,7 +357,9 @@ def run(tier):
             ev.add_tlc(r, "Emit_Corrupt (catalogue enumeration)")
         model_check(ev, tier, work)
 
-        pool = mp.Pool(JOBS, initializer=_init, initargs=(b, basedir, work))
+        xdir, xinfo = c02_extras.images(b)
+        xpaths = {"extra:" + x["name"]: x["path"] for x in xinfo if x["ok"]}
+        pool = mp.Pool(JOBS, initializer=_init, initargs=(b, basedir, work, xpaths))
         try:
             # ---- the base images themselves: e2fsck -fn clean AND Consistent (otherwise they may not enter the universe)
             base_cases = [(-(i + 1), p, [], True) for i, p in enumerate(profiles)]
@@ -361,7 +381,6 @@ def run(tier):
             profiles = usable
             # ---- C02's own tool-built images (gen/c02_extras.py): htree directories with names >= 0x80 under every hash version and
             # signedness; the property is evaluated on them as they are (clean verdict => Consistent, judged by TLC)
-            xdir, xinfo = c02_extras.images(b)
             xcases = [(-(1000 + i), "extra:" + x["name"], x["path"]) for i, x in enumerate(xinfo) if x["ok"]]
             xres = pool.map(_image_case, xcases)
             rx = tlc_lines([x["line"] for x in xres], work, "extra", STATE_CHUNK)
@@ -369,9 +388,12 @@ def run(tier):
                 die_broken("TLC failed on the extra images: %s" % rx["broken"][0])
             ev.cov["states"] += rx["distinct"]; ev.cov["transitions"] += rx["generated"]
             xstat = {}
+            xusable = []
             for i, x in enumerate(xres):
                 unk, failed = rx["evals"].get(i, (1, ["?"]))
                 m = x["meta"]
+                if m["exit"] == 0 and not unk and not failed:
+                    xusable.append(m["profile"])
                 xstat[m["profile"]] = {"e2fsck_fn_exit": m["exit"], "unknown": unk, "failed_conjuncts": failed, "reader_findings": m.get("errs", [])[:4]}
                 if i in rx["bad"]:
                     vd.violation("%s|%s" % (m["profile"], ",".join(failed)),
@@ -384,7 +406,24 @@ def run(tier):
             ev.cov["extra_images"] = xstat
             n_extra = len(xres)
             cases, ustats = select(tier, U, profiles, pool, rng, with_relocs=True)
-            ev.cov["universe"] = dict(ustats, profiles=profiles, selected=len(cases))
+            # ---- superblock recipes bound on the tool-built htree images that are clean and Consistent as built (Corrupt.tla!ExtraHashRecipes
+            # on every one by every tier; ExtraSbRecipes: thorough all, quick a seeded sample).  The state is projected when e2fsck exits 0.
+            ximgs, xmand, xrest = corrupt.extra_recipes(U)
+            xprof = [p for p in ("extra:" + n for n in ximgs) if p in xusable]
+            xrec = xmand + xrest
+            xbind = dict(zip(xprof, pool.map(_bindable, [(p, list(enumerate(xrec))) for p in xprof])))
+            xm = [(p, xrec[k], False) for p in xprof for k in sorted(xbind[p]) if k < len(xmand)]
+            xr = [(p, xrec[k], False) for p in xprof for k in sorted(xbind[p]) if k >= len(xmand)]
+            only = os.environ.get("VERIF_ONLY")
+            if only:
+                xsel = [c for c in xm + xr if re.search(only, c[0] + "+" + corrupt.rname(c[1]))]
+            elif tier == "quick":
+                xsel = xm + rng.sample(xr, min(len(xr), QUICK_XSB))
+            else:
+                xsel = xm + xr
+            cases += xsel
+            ev.cov["universe"] = dict(ustats, profiles=profiles, selected=len(cases), extra_images_bound=xprof,
+                                      extra_hash_recipes=len(xm), extra_sb_recipes=len(xr), extra_selected=len(xsel))
             t0 = time.time()
             jobs = [(k, p, recs, ws) for k, (p, recs, ws) in enumerate(cases)]
             results = pool.map(_case, jobs, chunksize=4)
@@ -449,6 +488,8 @@ def run(tier):
             m = with_state[i]["meta"]
             unk, failed = res_s["evals"][i]
             key = "%s|%s" % (strip_csum(m["recipe"]), ",".join(failed))
+            if m["profile"].startswith("extra:"):
+                key = m["profile"] + "+" + key
             what = "e2fsck -fn exits 0 on %s + %s but the image violates %s (%s)" % (m["profile"], m["recipe"], ",".join(failed), "; ".join(m.get("errs", [])[:4]) or m.get("fatal", ""))
             vd.violation(key, what, {"profile": m["profile"], "recipes": m["recipe"], "patches": m.get("patches"), "failed": failed,
                                       "reader_findings": m.get("errs"), "e2fsck_out": m.get("out", "")[-400:]})
@@ -490,6 +531,12 @@ def run(tier):
             "besides the catalogue x base images, both tiers run every bindable element of Corrupt.tla!C02Closed (bitmap pointers of unread groups relocated onto every kind of "
             "fixed metadata of group 0 / an earlier / a later group with the bookkeeping fixed up; entries of the resize inode's reserved-GDT map) and evaluate the property on "
             "C02's own tool-built images (gen/c02_extras.py: htree directories with names >= 0x80 under legacy / half_md4 / tea x signed / unsigned, a detached directory cycle)",
+            "both tiers run every bindable element of Corrupt.tla!C02Bounds on every base image (high halves *_hi of the group descriptor and of the inode; block numbers "
+            "blocks_count - 1 / blocks_count / first_data_block / first_data_block - 1, inode numbers inodes_count / inodes_count + 1 / first_ino - 1, per-group counts "
+            "maximum / maximum + 1; checksum recomputed); the state is projected when e2fsck -fn exits 0.  quick thins only the uid / gid high halves (part of no listed "
+            "invariant except through the quota files): all on the quota profile, one in %d elsewhere" % OWNER_EVERY,
+            "superblock recipes are bound on the tool-built htree images that are clean and Consistent as built: the hash selectors (each bit of s_flags, both hash bits, every "
+            "s_def_hash_version) on every image by both tiers, the rest of the Superblock table in full by thorough and as a seeded sample of %d by quick" % QUICK_XSB,
             "thorough runs every bindable universe element; the state of an image is projected whenever e2fsck -fn exits 0; states of FLAGGED images (the property holds "
             "trivially) are projected for the evidence only: 1 in %d, stale-checksum singles 1 in %d of those" % (FLAGGED_EVERY, STALE_EVERY),
         ]
@@ -504,7 +551,8 @@ def confirm(b, basedir, work, items, jobs, casefn, mkjob):
     if not items:
         return set()
     if not _G:
-        _init(b, basedir, work)
+        xdir, xinfo = c02_extras.images(b)
+        _init(b, basedir, work, {"extra:" + x["name"]: x["path"] for x in xinfo if x["ok"]})
     jmap = {j[0]: j for j in jobs}
     lines, idx = [], []
     for jid, i in items:
@@ -554,10 +602,10 @@ def replay(path):
     basedir, info = mkbase.base_images(b)
     work = fast_tmp()
     try:
-        _init(b, basedir, work)
+        xdir, xinfo = c02_extras.images(b)
+        _init(b, basedir, work, {"extra:" + x["name"]: x["path"] for x in xinfo if x["ok"]})
         img = os.path.join(work, "replay.img")
         if rp.get("image"):          # one of C02's own tool-built images: built again by the tree under test, checked as it is
-            xdir, xinfo = c02_extras.images(b)
             src = [x["path"] for x in xinfo if "extra:" + x["name"] == rp["image"] and x["ok"]]
             if not src:
                 die_broken("extra image %s could not be built" % rp["image"])
